@@ -101,6 +101,14 @@ Theorem C07_fast_path_real : forall (m : N) (e : Z) (bits : N),
                   B2R f = RNE64 (IZR (Z.of_N m) * powerRZ 10 e).
 Proof. exact lex_fast_correct_real. Qed.
 
+(* whenever the fast path of the algorithm model answers, parse_concise_float's answer is the answer of the specification
+   f64_fr by which Model/Num.v represents lexical *)
+Theorem C07_fast_path_refines : forall (sig : N) (e : Z) (bits : N),
+  fast_path F64 sig e = Some bits ->
+  exists f : b64, f64_fr sig e = Some f /\ bits_of_b64 f = bits /\
+                  parse_concise_float F64 sig e = bits.
+Proof. exact lex_fast_refines. Qed.
+
 Theorem C07_ef_mul : forall a b : efloat,
   (mant a < two64N)%N -> (mant b < two64N)%N ->
   let r := ef_mul a b in
@@ -182,6 +190,7 @@ Print Assumptions C07_oracle_overflow.
 Print Assumptions C07_oracle_value.
 Print Assumptions C07_fast_path.
 Print Assumptions C07_fast_path_real.
+Print Assumptions C07_fast_path_refines.
 Print Assumptions C07_ef_mul.
 Print Assumptions C07_ef_normalize.
 Print Assumptions C07_small_atof.
